@@ -7,7 +7,8 @@
 //   a usability probe (insert/find/remove/clear) passes; destruction leaves no block and no object behind;
 //   a failed copy constructor leaves nothing allocated and nothing constructed.
 // Output line:  "ok ops=.. points=.. thrown=.. nontrivial=.. swallowed=.. reschg=.."   or   "VIOL <what> @op=<i> <opdesc> kind=<a|c|f> k=<k>"
-// Compile with -DPART=n (1 arrays, 2 HashSet, 3 HashMap/HashMultiMap, 4 TreeSet, 5 TreeMap) to keep TUs small.
+// Compile with -DPART=n (1 arrays, 2 HashSet, 3 HashMap LimP4, 4 TreeSet, 5 TreeMap node 4, 6 HashMap Open8, 7 TreeMap node 32,
+// 8 HashMultiMap) to keep TUs small.
 #include "private_access.h"
 #include "kit.h"
 #include <csignal>
@@ -481,8 +482,12 @@ template<typename E> static bool dispatch(const std::string& cfg, uint64_t seed,
 #endif
 #if PART == 0 || PART == 3
 	if (cfg == "hmap_limp4") { typedef HMapMaker<E, E, momo::HashBucketLimP4<>> Mk; go<MapAd<E, E, typename Mk::Cont, Mk>>(seed, nops, complete); return true; }
-	if (cfg == "hmap_open8") { typedef HMapMaker<E, E, momo::HashBucketOpen8> Mk; go<MapAd<E, E, typename Mk::Cont, Mk>>(seed, nops, complete); return true; }
 	if (cfg == "hmap_limp4_xc") { typedef HMapMaker<E, E, momo::HashBucketLimP4<>, true> Mk; go<MapAd<E, E, typename Mk::Cont, Mk>>(seed, nops, complete); return true; }
+#endif
+#if PART == 0 || PART == 6
+	if (cfg == "hmap_open8") { typedef HMapMaker<E, E, momo::HashBucketOpen8> Mk; go<MapAd<E, E, typename Mk::Cont, Mk>>(seed, nops, complete); return true; }
+#endif
+#if PART == 0 || PART == 8
 	if (cfg == "hmmap") { typedef HMMapMaker<E, E> Mk; go<MultiMapAd<E, E, typename Mk::Cont, Mk>>(seed, nops, complete); return true; }
 #endif
 #if PART == 0 || PART == 4
@@ -493,6 +498,8 @@ template<typename E> static bool dispatch(const std::string& cfg, uint64_t seed,
 #if PART == 0 || PART == 5
 	if (cfg == "tmap_n4") { typedef TMapMaker<E, E, Node4> Mk; go<MapAd<E, E, typename Mk::Cont, Mk>>(seed, nops, complete); return true; }
 	if (cfg == "tmap_n4_xc") { typedef TMapMaker<E, E, Node4, true> Mk; go<MapAd<E, E, typename Mk::Cont, Mk>>(seed, nops, complete); return true; }
+#endif
+#if PART == 0 || PART == 7
 	if (cfg == "tmap_n32") { typedef TMapMaker<E, E, Node32> Mk; go<MapAd<E, E, typename Mk::Cont, Mk>>(seed, nops, complete); return true; }
 #endif
 	return false;
@@ -504,11 +511,17 @@ template<typename K, typename V> static bool dispatch_mixed(const std::string& c
 	(void)cfg; (void)seed; (void)nops; (void)complete;
 #if PART == 0 || PART == 3
 	if (cfg == "hmap_limp4") { typedef HMapMaker<K, V, momo::HashBucketLimP4<>> Mk; go<MapAd<K, V, typename Mk::Cont, Mk>>(seed, nops, complete); return true; }
+#endif
+#if PART == 0 || PART == 6
 	if (cfg == "hmap_open8") { typedef HMapMaker<K, V, momo::HashBucketOpen8> Mk; go<MapAd<K, V, typename Mk::Cont, Mk>>(seed, nops, complete); return true; }
+#endif
+#if PART == 0 || PART == 8
 	if (cfg == "hmmap") { typedef HMMapMaker<K, V> Mk; go<MultiMapAd<K, V, typename Mk::Cont, Mk>>(seed, nops, complete); return true; }
 #endif
 #if PART == 0 || PART == 5
 	if (cfg == "tmap_n4") { typedef TMapMaker<K, V, Node4> Mk; go<MapAd<K, V, typename Mk::Cont, Mk>>(seed, nops, complete); return true; }
+#endif
+#if PART == 0 || PART == 7
 	if (cfg == "tmap_n32") { typedef TMapMaker<K, V, Node32> Mk; go<MapAd<K, V, typename Mk::Cont, Mk>>(seed, nops, complete); return true; }
 #endif
 	return false;
